@@ -209,6 +209,15 @@ theorem distributor_never_halts (e : Env) (henv : EnvOk e) (hmod : e.modAddr? ""
   let ⟨r, hr, _, _⟩ := distributor_block_completes e henv hmod hburn subs hv hb32 w faults (reachT_inv e henv hmod hburn w h)
   ⟨r, hr⟩
 
+/-- … and after that block BOTH registered invariants of the module hold, as the Go code evaluates
+    them — in every world reachable by any history of inflows, parameter changes and blocks -/
+theorem reachT_registered_invariants (e : Env) (henv : EnvOk e) (hmod : e.modAddr? "" = none) (hburn : BurnerOk e)
+    (w : Distr.World) (h : ReachT e w) (subs : List SubD) (hv : paramsValid e subs = true) (hb32 : Bech32Facts subs)
+    (faults : List Nat) :
+    ∃ r, Distr.beginBlock e subs w faults = .ok r ∧
+      Distr.nonNegativeStates r.world.states = true ∧ Distr.stateSumMatchesBalance e r.world = true :=
+  block_completes_with_registered_invariants e henv hmod hburn subs hv hb32 w faults (reachT_inv e henv hmod hburn w h)
+
 /-- the empty distributor over a bank with sorted, non-negative balances satisfies the invariant -/
 theorem fullInv_empty (e : Env) (b : Bank) (hb : BankOk e b) (hmain : ∀ d, 0 ≤ amountOf (b.balance e.mainAddr) d) :
     FullInv e { bank := b } := by
